@@ -10,8 +10,26 @@ import operator
 
 import numpy as np
 
-_OPS = {'and': operator.and_, 'or': operator.or_, 'xor': operator.xor}
+def _fn_and(a, b):
+    return a & b
+
+
+def _fn_or(a, b):
+    return a | b
+
+
+# a compound's operator is any callable binary operator: the operator-module functions (what & | ^ on regions use), the
+# NumPy logical / bitwise functions, and plain Python functions are all legal and mean the same set operations
+_OPS = {'and': operator.and_, 'or': operator.or_, 'xor': operator.xor,
+        'np_and': np.logical_and, 'np_or': np.logical_or, 'np_xor': np.logical_xor,
+        'bit_and': np.bitwise_and, 'bit_or': np.bitwise_or, 'bit_xor': np.bitwise_xor, 'fn_and': _fn_and, 'fn_or': _fn_or}
 _OPNAMES = {v: k for k, v in _OPS.items()}
+_LOGIC = {'and': np.logical_and, 'or': np.logical_or, 'xor': np.logical_xor}
+
+
+def op_logic(op):
+    """the NumPy logical function with the meaning of a compound's operator callable."""
+    return _LOGIC[_OPNAMES[op].split('_')[-1]]
 
 
 def _lazy():
